@@ -149,16 +149,15 @@ def generate(model, gen, N, by_bloc):
 
 
 # small historical table for CambridgeSampler (custom `path`)
-CAMBRIDGE_TABLE = {("W", "W", "C"): 3, ("W", "C"): 2, ("C", "W", "W"): 1, ("C", "C", "W"): 4, ("W",): 1, ("C", "W"): 1}
+CAMBRIDGE_TABLE = {("W", "W", "C"): 3, ("W", "C"): 2, ("C", "W", "W"): 1, ("C", "C", "W"): 4}
 
 
 def cambridge_table_path():
     d = os.path.join(VERIF, ".scratch")
     os.makedirs(d, exist_ok=True)
     path = os.path.join(d, f"cambridge-{os.getpid()}.p")
-    if not os.path.exists(path):
-        with open(path, "wb") as f:
-            pickle.dump(CAMBRIDGE_TABLE, f)
+    with open(path, "wb") as f:
+        pickle.dump(CAMBRIDGE_TABLE, f)
     return path
 
 
